@@ -619,7 +619,7 @@ class EffDomain(Domain):
                 if d == 'numpy' or d.startswith('numpy.'):
                     d = 'np' + d[5:]
                 return Val({eng.ext_loc(d)})
-        if name in BUILTIN_IMM or name in BUILTIN_CONTAINER or name in ('range', 'enumerate', 'zip', 'map', 'filter',
+        if name in BUILTIN_IMM or name in BUILTIN_CONTAINER or name in ('range', 'enumerate', 'zip', 'map', 'filter', 'next',
                                                                             'sum', 'dict', 'super', 'object'):
             return Val({eng.ext_loc('builtins.' + name)})
         if name in ('True', 'False', 'None'):
@@ -1105,6 +1105,12 @@ class EffDomain(Domain):
                 for v in kwargs.values():
                     eng.store(l, '[*]', v)
                 return Val({l})
+            if name == 'next':
+                # next(it[, default]): an element of the iterated container, or the default
+                out = self.iter_elems(a0) if args else IMMV
+                for a in args[1:]:
+                    out = vjoin(out, a)
+                return out
             if name in ('super', 'object'):
                 return IMMV
         if dotted in ('copy.copy',):
